@@ -51,7 +51,7 @@ def rand_settings(rng, version, tclk_mode):
     return ni, node
 
 
-async def roundtrip(version, nv3, ni, node, prior=None):
+async def roundtrip(version, nv3, ni, node, prior=None, refuse=None):
     import bellows.ezsp as ezsp_mod
     import copy
 
@@ -82,6 +82,8 @@ async def roundtrip(version, nv3, ni, node, prior=None):
                 await app.write_network_info(network_info=p_ni, node_info=p_node)
             out["prior_fc"], out["prior_keys"] = st.nwk_fc, sum(1 for k in st.keys if k is not None)
         w_ni, w_node = copy.deepcopy(ni), copy.deepcopy(node)
+        if refuse is not None:
+            st.refuse_partner = bytes(ni.key_table[refuse].partner_ieee.serialize())
         await app.write_network_info(network_info=w_ni, node_info=w_node)
         out["written_stack_specific"] = w_ni.stack_specific
         out["written"] = w_ni
@@ -229,7 +231,13 @@ def cases(ctx):
                 if prior is not None and len(prior) == 2 and i % 4 == 1:
                     prior[0].network_key.tx_counter = rng.randint(1, 1 << 31)  # a used stick, then a backup with a fresh counter
                     ni.network_key.tx_counter = 0
-                cs.append((v, nv3, mode, ni, node, prior))
+                cs.append((v, nv3, mode, ni, node, prior, None))
+            # the NCP refuses one link key of the backup (not the last one): every other key is still restored
+            for j in range(ctx.n(1, 4)):
+                ni, node = rand_settings(rng, v, "wellknown")
+                while len(ni.key_table) < 3:
+                    ni, node = rand_settings(rng, v, "wellknown")
+                cs.append((v, nv3, "wellknown", ni, node, None, rng.randrange(len(ni.key_table) - 1)))
     return cs
 
 
@@ -242,8 +250,15 @@ def run(ctx):
     logging.disable(logging.CRITICAL)
     cs = cases(ctx)
     lines, impl = [], []
-    for i, (v, nv3, mode, ni, node, prior) in enumerate(cs):
-        o = asyncio.run(roundtrip(v, nv3, ni, node, prior))
+    for i, (v, nv3, mode, ni, node, prior, refuse) in enumerate(cs):
+        o = asyncio.run(roundtrip(v, nv3, ni, node, prior, refuse))
+        if refuse is not None:
+            # judged (and modelled) as the backup without the key the NCP would not take
+            ctx.count("ncp-refuses-one-link-key")
+            refused = ni.key_table[refuse]
+            ni.key_table = [k for k in ni.key_table if k is not refused]
+            if o["result"] == "ok":
+                o["written"].key_table = [k for k in o["written"].key_table if k.partner_ieee != refused.partner_ieee]
         ctx.count("ncp:" + ("used" if prior else "fresh"))
         if o["result"] == "ok":
             lines.append(model_line(v, ni, o))
